@@ -280,6 +280,19 @@ theorem spres_pRetract (id : Id) (x : Option Nat) : SPres (pRetract id x) := by
       | exact h1
       | (refine h1.set id _ ?_ rfl; exact hy.edit _ (by decide) rfl rfl rfl rfl rfl rfl rfl rfl rfl)
 
+theorem spres_pMergeInto (a b : Id) : SPres (pMergeInto a b) := by
+  intro s tx e h
+  unfold pMergeInto
+  split
+  · exact h.same rfl
+  · rename_i tx1 y hl
+    obtain ⟨h1, hy⟩ := load_entry h hl
+    repeat' split
+    all_goals first
+      | exact h1.same rfl
+      | exact h1
+      | (refine h1.set a _ ?_ rfl; exact hy.edit _ (by decide) rfl rfl rfl rfl rfl rfl rfl rfl rfl)
+
 theorem spres_pCheck2 (a b : Id) (pred : Staged → Staged → Option Err) : SPres (pCheck2 a b pred) := by
   intro s tx e h
   unfold pCheck2
@@ -396,6 +409,7 @@ macro "spres_chain" h:ident : tactic => `(tactic|
     | exact spres_pPurge _ _ _ _ _ $h
     | exact spres_pAssign _ _ _ _ _ $h
     | exact spres_pEdit _ _ _ _ _ _ (by decide) _ _ _ $h
+    | exact spres_pMergeInto _ _ _ _ _ $h
     | exact spres_pCheck2 _ _ _ _ _ _ $h
     | exact spres_pExpectStatus _ _ _ _ _ $h
     | exact spres_pFail _ _ _ _ $h
@@ -406,6 +420,7 @@ macro "spres_chain" h:ident : tactic => `(tactic|
     | exact spres_pStageNew _ _
     | exact spres_pAssign _ _
     | exact spres_pEdit _ _ _ _ _ _ (by decide)
+    | exact spres_pMergeInto _ _
     | exact spres_pCheck2 _ _ _
     | exact spres_pExpectStatus _ _
     | apply SInv.andThen
